@@ -1011,6 +1011,51 @@ fn run(v: &Value) -> Result<String, String> {
             total += bulk_sweep_type::<i64>("i64", &lens)?;
             total += bulk_sweep_type::<f32>("f32", &lens)?;
             total += bulk_sweep_type::<f64>("f64", &lens)?;
+            // builder histories (multi-step): a body setter other than the aligned one yields a body that depends on nothing an earlier
+            // setter left behind, and a query setter never touches such a body -- every history of length 4 over 8 setters
+            {
+                let xs: Vec<f64> = (0..10).map(|i| i as f64 * 1.5).collect();
+                let cs: Vec<beve::Complex<f64>> = (0..17).map(|i| beve::Complex { re: i as f64, im: -(i as f64) }).collect();
+                let js = serde_json::json!({"k": [1, 2, 3]});
+                let apply = |b: repe::message::MessageBuilder, op: usize| -> repe::message::MessageBuilder {
+                    match op {
+                        0 => b.query_str("/x"),
+                        1 => b.query_str("/a/much/longer/path/to/spectra"),
+                        2 => b.query_bytes(b"/qb".to_vec()),
+                        3 => b.body_aligned_typed_slice(&xs),
+                        4 => b.body_typed_slice(&xs),
+                        5 => b.body_complex_slice(&cs),
+                        6 => b.body_bytes(vec![9u8; 5]).body_format(repe::BodyFormat::RawBinary),
+                        _ => b.body_json(&js).expect("json"),
+                    }
+                };
+                let names = ["query_str(short)", "query_str(long)", "query_bytes", "body_aligned_typed_slice", "body_typed_slice", "body_complex_slice", "body_bytes", "body_json"];
+                for h in 0..8usize.pow(4) {
+                    let ops = [h % 8, (h / 8) % 8, (h / 64) % 8, (h / 512) % 8];
+                    let mut b = repe::Message::builder().id(5);
+                    for &o in &ops { b = apply(b, o); }
+                    let m = b.build();
+                    let hist = || ops.iter().map(|o| names[*o]).collect::<Vec<_>>().join(" -> ");
+                    if let Some(&lq) = ops.iter().rev().find(|o| **o <= 2) {
+                        let want = apply(repe::Message::builder(), lq).build().query;
+                        if m.query != want { return Err(format!("builder history {}: the query is not the last one set", hist())); }
+                    }
+                    if let Some(&lb) = ops.iter().rev().find(|o| **o >= 4) {
+                        // only when no aligned body was set after it
+                        let pos_b = ops.iter().rposition(|o| *o == lb).unwrap();
+                        if !ops[pos_b..].contains(&3) {
+                            let want = apply(repe::Message::builder(), lb).build();
+                            if m.body != want.body || m.header.body_format != want.header.body_format {
+                                return Err(format!("builder history {}: the body ({} bytes, format {}) is not what {} alone produces ({} bytes, format {})", hist(), m.body.len(), m.header.body_format, names[lb], want.body.len(), want.header.body_format));
+                            }
+                        }
+                    }
+                    if m.header.length != 48 + m.query.len() as u64 + m.body.len() as u64 || repe::Message::from_slice_exact(&m.to_vec()).is_err() {
+                        return Err(format!("builder history {}: the built message is not a consistent frame", hist()));
+                    }
+                    total += 1;
+                }
+            }
             // complex pairs: bulk == generic, round trip, streaming == builder
             let mut seed = 77u64;
             for n in [0usize, 1, 2, 5, 31, 32, 33, 63, 64, 65, 8191, 8192] {
